@@ -345,8 +345,7 @@ c37!(c37_t_cap2_n0_remove, 0, 2, 1);
 #[cfg(feature = "thorough")]
 c37!(c37_t_cap2_n0_touch, 0, 2, 2);
 c37!(c37_q_cap2_n1_touch, 1, 2, 2);
-#[cfg(feature = "thorough")]
-c37!(c37_t_cap3_n2_insert, 2, 3, 0);
+// (capacity 3 with two nodes + insert: 10^7 SAT variables, ran out of memory after 36 min: dropped)
 #[cfg(feature = "thorough")]
 c37!(c37_t_cap3_n3_insert, 3, 3, 0);
 #[cfg(feature = "thorough")]
